@@ -38,7 +38,8 @@ NewRun(ev) ==
   IN [P |-> P, C |-> C, L |-> L, d |-> [Boot(P, C, L.mem) EXCEPT !.phase = "boot"], msg |-> << >>, n |-> ev.n,
       refuse |-> refuse,
       \* source lines a diagnostic may cite (set of [line, text]); empty = not known to the harness
-      offend |-> IF "offend" \in DOMAIN ev THEN {ev.offend[j] : j \in 1 .. Len(ev.offend)} ELSE {}]
+      offend |-> IF "offend" \in DOMAIN ev THEN {ev.offend[j] : j \in 1 .. Len(ev.offend)} ELSE {},
+      sawpos |-> FALSE]
 
 \* a message citing a source line is pending after PRINT / INT 0 / INT 3 / unsupported AH
 Pending(kind, e, idx) == <<kind, idx, e.line, IF kind = "int3" THEN "" ELSE e.text>>
@@ -143,11 +144,12 @@ OnDiagPos(r, ev) ==
            <<"diagnostic cites line", ev.line, ev.text, "the offending token is on", r.offend>>)
   /\ Check(r.offend = {} \/ \E o \in r.offend : o.line = ev.line /\ (o.col < 0 \/ o.col = ev.col), "diagpos",
            <<"diagnostic cites column", ev.col, "the offending token is at", r.offend>>)
-  /\ UNCHANGED run
+  /\ run' = [r EXCEPT !.sawpos = TRUE]
 
 OnDiag(r, ev) ==
   /\ Check(r.refuse # "", "diag", <<"diagnostic for a valid program", ev.stage, ev.msg>>)
   /\ Check(ev.msg # "", "reject-" \o r.refuse, <<"empty diagnostic">>)
+  /\ Check(r.offend = {} \/ r.sawpos, "diagpos", <<"the diagnostic cites no source position:", ev.msg>>)
   /\ Check(r.d.phase \in {"boot", "load"}, "reject-" \o r.refuse, <<"diagnostic after execution began, phase", r.d.phase>>)
   /\ run' = [r EXCEPT !.d.phase = "done", !.d.outfree = TRUE, !.d.why = "diag"]
 
